@@ -1,2 +1,3 @@
 pub mod lexemes;
 pub mod strings;
+pub mod programs;
